@@ -1,3 +1,4 @@
+import Cctp.Spec.Toy
 import Cctp.Lemmas.Shapes
 /-
   C06 — outbound messages carry exactly the requested content.
@@ -91,5 +92,10 @@ theorem replace_event_content (ext : Ext) (cfg : Cfg) (st : Store) (led : Ledger
                     om.destDomain om.recipient newCaller] := by
   obtain ⟨t, om, ob, addr, maddr, bz, nbody, _, _, _, _, hom, hob, _, _, _, _, _, _, _, hev, _⟩ := replaceDeposit_shape h
   exact ⟨om, ob, bz, hom, hob, hev⟩
+
+/-! non-vacuity: concrete successful send, deposit and replacement in the toy world (the hypotheses of the content theorems) -/
+example : ∃ o, handle Toy.ext Toy.cfg Toy.st Toy.led Toy.send = .ok o := (Toy.isOk_iff _).mp (by decide +kernel)
+example : ∃ o, handle Toy.ext Toy.cfg Toy.st Toy.led Toy.deposit = .ok o := (Toy.isOk_iff _).mp (by decide +kernel)
+example : ∃ o, handle Toy.ext Toy.cfg Toy.st Toy.led Toy.replace = .ok o := (Toy.isOk_iff _).mp (by decide +kernel)
 
 end Cctp.C06
